@@ -43,6 +43,7 @@ namespace vh
 #include <tao/pegtl/contrib/uint32.hpp>
 #include <tao/pegtl/contrib/uint64.hpp>
 #include <cstdio>
+#include <cstdlib>
 #include <cstring>
 #include <map>
 #include <sstream>
@@ -593,9 +594,17 @@ namespace vh
    // ---------------------------------------------------------------- runaway protection (a changed library may loop)
    struct runaway {};
    inline long& steps() { static long n = 0; return n; }
+   inline long max_steps()
+   {
+      static const long m = []() {
+         const char* e = std::getenv( "VH_MAX_STEPS" );
+         return ( e != nullptr ) ? std::atol( e ) : 20000L;
+      }();
+      return m;
+   }
    inline void step()
    {
-      if( ++steps() > 20000 ) {
+      if( ++steps() > max_steps() ) {
          throw runaway{};
       }
    }
